@@ -1,8 +1,24 @@
-"""MANIFEST.setup_cmd: build everything from files on disk, warm the TLC table caches."""
+"""MANIFEST.setup_cmd: build everything from files on disk, parse every specification module, warm the TLC table caches."""
+import glob
+import os
+import subprocess
+
 import common as C
 
 
+def sany_all():
+    """every module of /verif/spec must parse (SANY) -- a broken module is a tool error at setup time"""
+    for f in sorted(glob.glob(os.path.join(C.SPEC, "*.tla"))):
+        if os.path.basename(f).startswith("MC_Locks_gen"):
+            continue
+        p = subprocess.run(["tla-sany", os.path.basename(f)], cwd=C.SPEC, stdout=subprocess.PIPE, stderr=subprocess.STDOUT, text=True,
+                           env=C.scrubbed_env())
+        if "Multiple declarations" in p.stdout or "*** Errors" in p.stdout or "Fatal errors" in p.stdout or p.returncode != 0:
+            raise C.ToolError("SANY rejects %s:\n%s" % (f, p.stdout[-1500:]))
+
+
 def main():
+    sany_all()
     C.build_harness()
     C.build_server()
     import registry
